@@ -49,6 +49,8 @@ type stsPlan struct {
 	// RollBack[k]: the roll-out going on in cycle k+1 is one that is being undone: the update revision is the
 	// current revision again while some pods still run the abandoned one (updatedReplicas < replicas)
 	RollBack []bool `json:"rollBack,omitempty"`
+	// OnDelete: the StatefulSet uses the OnDelete update strategy
+	OnDelete bool `json:"onDelete,omitempty"`
 }
 
 type coordCase struct {
@@ -193,6 +195,9 @@ func execCoord(c *coordCase, only int) *coordObs {
 		}
 		set := mkSts(s.Name, s.Pods, []string{"data"}, s.podLabel(), s.Pods)
 		set.Namespace = s.ns()
+		if s.OnDelete {
+			set.Spec.UpdateStrategy.Type = appsv1.OnDeleteStatefulSetStrategyType
+		}
 		objs = append(objs, set)
 		for pi := 0; pi < s.Pods; pi++ {
 			objs = append(objs, &corev1.Pod{
@@ -444,7 +449,7 @@ func genCoord(t *rapid.T) *coordCase {
 	maxPods := 0
 	used := map[string]bool{} // namespace/name and namespace/label pairs taken
 	for i := 0; i < n; i++ {
-		s := stsPlan{Name: names[i], Pods: rapid.IntRange(1, 3).Draw(t, fmt.Sprintf("pods%d", i))}
+		s := stsPlan{Name: names[i], Pods: rapid.IntRange(1, 3).Draw(t, fmt.Sprintf("pods%d", i)), OnDelete: rapid.IntRange(0, 3).Draw(t, fmt.Sprintf("onDelete%d", i)) == 0}
 		if c.AllNS {
 			s.NS = rapid.SampledFrom([]string{"", "tenant-b", "tenant-c"}).Draw(t, fmt.Sprintf("ns%d", i))
 			if i > 0 && rapid.Bool().Draw(t, fmt.Sprintf("sameName%d", i)) {
